@@ -1,6 +1,6 @@
 """C07 — the heap always yields a maximum element (and the tree stays complete)"""
 import vlib
-from areas import heap
+from areas import heap, treel
 
 
 def explore(chk, c_exe, m_exe):
@@ -94,6 +94,7 @@ def run(chk):
     # limit (0.3 s against 4 s), but the machine may be loaded; real hangs are cut
     # by the harness's own CPU-time watchdog (2 s per operation)
     vlib.HARNESS_ENV["H_SCRIPT_TIMEOUT"] = "30"
+    treel.promote_child_run(chk)
     c_exe, m_exe = vlib.prepare_area(chk, heap, leanchecker=True)
     if c_exe:
         explore(chk, c_exe, m_exe)
